@@ -11,9 +11,16 @@
      below segs           "/s1/s2/.../sn"
      relname segs         "s1/s2/.../sn"  ("." for no segments)
      resolved_dir root    absolute, normalised, not "/"  (what get_component_dirs returns)
-     wf_rel f             f is a '/'-joined non-empty list of clean segments (what the OS listing returns) *)
+     wf_rel f             f is a '/'-joined non-empty list of clean segments (what the OS listing returns)
+   Several component directories (Finder/Multi.v):
+     location             {loc_root; loc_present (= os.path.isdir); loc_tree}, `locs` = finder.locations in its order
+     found_of c p l       [q] if find_location of l returns q for lookup p, else []
+     refuses c p l        safe_join of l raises SuspiciousFileOperation for p (or the root is relative: unmodelled)
+     returned c locs p q  q is the result of find(p) or a member of find(p, all=True)
+     good_root r          absolute, not "/" after normalisation;   resolved_dir r = good_root and already normalised
+     pat_holds_lit        the LITERAL reading of a suffix (name = pre ++ s), without the `$`-before-newline corner *)
 From Coq Require Import String.
-From DJC Require Import Lib.Base Finder.Model Finder.Proofs.
+From DJC Require Import Lib.Base Finder.Model Finder.Proofs Finder.Multi.
 
 (* The filter: for every configuration (unset / empty / suffix strings / compiled patterns / deprecated setting) and
    every string, the verdict is exactly "some allowed pattern holds and no forbidden one". *)
@@ -91,6 +98,130 @@ Theorem default_settings_never_expose_backend_code :
 Proof. exact (conj default_never_backend (conj default_find_never_backend default_list_never_backend)). Qed.
 Print Assumptions default_settings_never_expose_backend_code.
 
+(* ================= the literal reading and the `$`-before-newline corner (made explicit) ================= *)
+(* For every name that does NOT end in a newline the filter is exactly the literal statement of the property:
+   "ends with an allowed suffix or matches an allowed pattern, and matches no forbidden one". *)
+Theorem literal_reading_outside_newline_names : forall (c : config) (name : str),
+  (forall pre, name <> pre ++ [NL]) -> (is_path_valid c name = true <-> exposable_lit c name).
+Proof. exact literal_reading. Qed.
+Print Assumptions literal_reading_outside_newline_names.
+
+(* For a name base ++ "\n" every suffix string (allowed AND forbidden) is tried against the name and against base;
+   nothing else differs from the literal reading ... *)
+Theorem newline_names_are_judged_with_and_without_the_newline : forall (c : config) (base : str),
+  is_path_valid c (base ++ [NL]) = true <->
+  (exists p, In p (eff_allowed c) /\ pat_holds_nl p base) /\
+  (forall p, In p (eff_forbidden c) -> ~ pat_holds_nl p base).
+Proof. exact newline_reading. Qed.
+Print Assumptions newline_names_are_judged_with_and_without_the_newline.
+
+(* ... and for EVERY name a literally matching forbidden suffix/pattern hides it: the corner can only hide more on the
+   forbidden side ("evil.py\n" is hidden when ".py" is forbidden), and expose "a.js\n" on the allowed side. *)
+Theorem forbidden_literal_always_respected : forall (c : config) (name : str),
+  is_path_valid c name = true -> forall p, In p (eff_forbidden c) -> ~ pat_holds_lit p name.
+Proof. exact forbidden_literal_respected. Qed.
+Print Assumptions forbidden_literal_always_respected.
+
+(* ================= several component directories ================= *)
+(* list(): exactly the exposable files of every EXISTING location, tagged with their location. *)
+Theorem list_all_exposes_exactly : forall (c : config) (locs : list location) (r f : str),
+  In (r, f) (finder_list_all c locs) <->
+  exists l, In l locs /\ loc_root l = r /\ loc_present l = true /\ In f (files (loc_tree l)) /\ exposable c f.
+Proof. exact list_all_spec. Qed.
+Print Assumptions list_all_exposes_exactly.
+
+(* find(p, all=True): the matches of all locations in order - unless some location refuses the path, which aborts the call. *)
+Theorem find_all_collects_every_location : forall (c : config) (p : str) (locs : list location) (qs : list str),
+  find_all c locs p = FAll qs <->
+  (forall l, In l locs -> ~ refuses c p l) /\ qs = flat_map (found_of c p) locs.
+Proof. exact find_all_spec. Qed.
+Print Assumptions find_all_collects_every_location.
+
+(* find(p): the first location with a match wins (the same relative name in two directories) ... *)
+Theorem find_first_match_wins : forall (c : config) (p q : str) (locs : list location),
+  find_first c locs p = FFound q <->
+  exists l1 l l2, locs = l1 ++ l :: l2 /\ (forall l', In l' l1 -> find_loc c l' p = FNotFound) /\ find_loc c l p = FFound q.
+Proof. exact find_first_found. Qed.
+Print Assumptions find_first_match_wins.
+
+(* ... and it is the head of what all=True returns. *)
+Theorem find_first_is_head_of_find_all : forall (c : config) (p : str) (locs : list location) (qs : list str),
+  find_all c locs p = FAll qs ->
+  find_first c locs p = match qs with [] => FNotFound | q :: _ => FFound q end.
+Proof. exact find_first_head_of_all. Qed.
+Print Assumptions find_first_is_head_of_find_all.
+
+(* No request path resolves outside the component directories: every path returned by find(p) / find(p, all=True), for
+   every lookup string, is the normalised root of ONE OF the locations followed by descending clean segments, exists
+   below that (existing) location, and its name relative to that location is exposable. *)
+Theorem no_escape_from_roots : forall (c : config) (locs : list location) (p q : str),
+  (forall l, In l locs -> good_root (loc_root l)) -> returned c locs p q ->
+  exists l segs, In l locs /\ loc_present l = true /\ Forall clean_seg segs /\
+                 q = normpath (loc_root l) ++ below segs /\ In q (loc_world l) /\ exposable c (relname segs).
+Proof. exact no_escape_multi. Qed.
+Print Assumptions no_escape_from_roots.
+
+(* find and list agree over several directories: a clean relative name is never refused; a file of a location is listed
+   iff find(all=True) under its own name returns it ... *)
+Theorem find_agrees_with_list_all : forall (c : config) (locs : list location) (l : location) (f : str),
+  (forall l', In l' locs -> resolved_dir (loc_root l')) ->
+  In l locs -> loc_present l = true -> wf_rel f -> In f (files (loc_tree l)) ->
+  find_all c locs f = FAll (flat_map (found_of c f) locs) /\
+  (In (loc_root l, f) (finder_list_all c locs) <-> In (loc_root l ++ SLASH :: f) (flat_map (found_of c f) locs)).
+Proof. exact find_agrees_with_list_all_lemma. Qed.
+Print Assumptions find_agrees_with_list_all.
+
+(* ... and NO lookup path makes find return a file that list() hides: a returned path is a location itself, a directory
+   below one, or a listed file - always with an exposable relative name. *)
+Theorem find_returns_only_listed_files : forall (c : config) (locs : list location) (p q : str),
+  (forall l, In l locs -> resolved_dir (loc_root l)) -> returned c locs p q ->
+  exists l, In l locs /\ loc_present l = true /\
+    ((q = loc_root l /\ exposable c DOT) \/
+     exists r, q = loc_root l ++ SLASH :: r /\ exposable c r /\
+               (In r (dirs (loc_tree l)) \/ In (loc_root l, r) (finder_list_all c locs))).
+Proof. exact returned_is_listed. Qed.
+Print Assumptions find_returns_only_listed_files.
+
+(* collectstatic copies, for every relative name, the FIRST (location, name) pair that list() yields; the set of names
+   copied is the set of names listed. *)
+Theorem collectstatic_copies_first_listing : forall (c : config) (locs : list location) (r f : str),
+  In (r, f) (collected c locs) <->
+  exists l1 l2, finder_list_all c locs = l1 ++ (r, f) :: l2 /\ ~ In f (map snd l1).
+Proof. exact collected_spec. Qed.
+Print Assumptions collectstatic_copies_first_listing.
+
+Theorem collectstatic_names_are_listed_names : forall (c : config) (locs : list location) (f : str),
+  In f (map snd (collected c locs)) <-> In f (map snd (finder_list_all c locs)).
+Proof. exact collected_names. Qed.
+Print Assumptions collectstatic_names_are_listed_names.
+
+(* The dev server (staticfiles.views.serve = normpath + lstrip("/") + find): whatever the request path, a 200 answer
+   streams a path that find returns, hence (previous theorem) a listed file; a clean relative name is looked up as is. *)
+Theorem dev_server_serves_only_exposed : forall (c : config) (locs : list location) (p q : str),
+  (forall l, In l locs -> resolved_dir (loc_root l)) -> serve c locs p = SFile q ->
+  exists l, In l locs /\ loc_present l = true /\
+    ((q = loc_root l /\ exposable c DOT) \/
+     exists r, q = loc_root l ++ SLASH :: r /\ exposable c r /\
+               (In r (dirs (loc_tree l)) \/ In (loc_root l, r) (finder_list_all c locs))).
+Proof. exact serve_only_exposed. Qed.
+Print Assumptions dev_server_serves_only_exposed.
+
+Theorem dev_server_looks_up_clean_names_unchanged : forall (f : str), wf_rel f -> serve_lookup f = f.
+Proof. exact serve_lookup_clean. Qed.
+Print Assumptions dev_server_looks_up_clean_names_unchanged.
+
+(* Defaults, several directories: nothing returned by find / find(all=True) / the dev server, listed, or collected ends in
+   a backend suffix (also when followed by a final newline). *)
+Theorem default_settings_never_expose_backend_code_all :
+  (forall locs p q s, (forall l, In l locs -> good_root (loc_root l)) ->
+     returned default_config locs p q \/ (exists p', serve default_config locs p' = SFile q) ->
+     In s backend_suffixes -> ~ pat_holds (Suffix s) q) /\
+  (forall locs r f s,
+     In (r, f) (finder_list_all default_config locs) \/ In (r, f) (collected default_config locs) ->
+     In s backend_suffixes -> ~ pat_holds (Suffix s) f).
+Proof. exact (conj default_returned_never_backend default_list_all_never_backend). Qed.
+Print Assumptions default_settings_never_expose_backend_code_all.
+
 (* ---------- non-vacuity and witnesses ---------- *)
 Definition ex_root : str := s2n "/tmp/c17/r".
 Definition ex_tree : tree :=
@@ -135,3 +266,46 @@ Proof. vm_compute. repeat split; reflexivity. Qed.
 Example default_exposes_something :
   finder_list default_config ex_tree = map s2n ["a.js"; "abdxjs.js"; "secret/b.js"]%string.
 Proof. vm_compute. reflexivity. Qed.
+
+(* several directories: the same relative name in two of them, a prefix-named sibling, a missing directory *)
+Definition ex_locs : list location :=
+  [ {| loc_root := s2n "/tmp/c17/c"; loc_present := true;
+       loc_tree := {| dirs := [s2n "sub"]; files := map s2n ["a.js"; "m.py"; "sub/b.js"]%string |} |};
+    {| loc_root := s2n "/tmp/c17/c_private"; loc_present := true;
+       loc_tree := {| dirs := []; files := map s2n ["a.js"; "secret.js"]%string |} |};
+    {| loc_root := s2n "/tmp/c17/missing"; loc_present := false; loc_tree := {| dirs := []; files := [] |} |} ].
+
+Example locs_satisfiable : forall l, In l ex_locs -> resolved_dir (loc_root l).
+Proof. intros l [<-|[<-|[<-|[]]]]; repeat split. Qed.
+
+Example witness_several_dirs :
+  find_all default_config ex_locs (s2n "a.js") = FAll (map s2n ["/tmp/c17/c/a.js"; "/tmp/c17/c_private/a.js"]%string) /\
+  find_first default_config ex_locs (s2n "a.js") = FFound (s2n "/tmp/c17/c/a.js") /\
+  find_first default_config ex_locs (s2n "secret.js") = FFound (s2n "/tmp/c17/c_private/secret.js") /\
+  find_first default_config ex_locs (s2n "../c_private/secret.js") = FSuspicious /\
+  find_all default_config ex_locs (s2n "/tmp/c17/c_private/secret.js") = FASuspicious /\
+  find_first default_config ex_locs (s2n "m.py") = FNotFound /\
+  finder_list_all default_config ex_locs =
+    [(s2n "/tmp/c17/c", s2n "a.js"); (s2n "/tmp/c17/c", s2n "sub/b.js");
+     (s2n "/tmp/c17/c_private", s2n "a.js"); (s2n "/tmp/c17/c_private", s2n "secret.js")] /\
+  collected default_config ex_locs =
+    [(s2n "/tmp/c17/c", s2n "a.js"); (s2n "/tmp/c17/c", s2n "sub/b.js"); (s2n "/tmp/c17/c_private", s2n "secret.js")] /\
+  serve default_config ex_locs (s2n "/x/../sub//b.js") = SFile (s2n "/tmp/c17/c/sub/b.js") /\
+  serve default_config ex_locs (s2n "sub") = S404 /\
+  serve default_config ex_locs (s2n "../c_private/secret.js") = SSuspicious.
+Proof. vm_compute. repeat split; reflexivity. Qed.
+
+(* the newline corner, both directions: allowed side exposes "a.js\n", forbidden side hides "evil.py\n" although "" is allowed *)
+Example newline_corner_both_sides :
+  is_path_valid (cfg [Suffix (s2n ".js")] []) (s2n "a.js" ++ [NL]) = true /\
+  ~ exposable_lit (cfg [Suffix (s2n ".js")] []) (s2n "a.js" ++ [NL]) /\
+  is_path_valid (cfg [Suffix []] [Suffix (s2n ".py")]) (s2n "evil.py" ++ [NL]) = false /\
+  exposable_lit (cfg [Suffix []] [Suffix (s2n ".py")]) (s2n "evil.py" ++ [NL]) /\
+  is_path_valid (cfg [Suffix []] [Suffix (s2n ".py")]) (s2n "m.PY") = true.
+Proof.
+  split; [vm_compute; reflexivity|]. split.
+  - intros [[p [[<-|[]] [pre H]]] _]. apply (f_equal (@rev N)) in H. rewrite (rev_app_distr pre) in H. vm_compute in H. discriminate.
+  - split; [vm_compute; reflexivity|]. split; [|vm_compute; reflexivity]. split.
+    + exists (Suffix []). split; [left; reflexivity|]. exists (s2n "evil.py" ++ [NL]). rewrite app_nil_r. reflexivity.
+    + intros p [<-|[]] [pre H]. apply (f_equal (@rev N)) in H. rewrite (rev_app_distr pre) in H. vm_compute in H. discriminate.
+Qed.
